@@ -128,7 +128,21 @@ func TestC12ScriptedBackend(t *testing.T) {
 		mode := rapid.SampledFrom([]string{"zstd", "uncompressed"}).Draw(t, "mode")
 		kind, hash, data, sizeCls := value(t, 3*gen.MiB)
 		px := fproxy.New()
-		s, err := stack.New(stack.Opts{Storage: mode, Proxy: px})
+		// "oversize objects": sometimes a max_proxy_blob_size around the object's size
+		var proxyMax int64
+		switch rapid.IntRange(0, 5).Draw(t, "proxyMaxClass") {
+		case 0:
+			proxyMax = int64(len(data)) - 1
+		case 1:
+			proxyMax = int64(len(data))
+		case 2:
+			proxyMax = int64(len(data))/2 + 1
+		}
+		if proxyMax < 1 {
+			proxyMax = 0
+		}
+		over := proxyMax > 0 && int64(len(data)) > proxyMax
+		s, err := stack.New(stack.Opts{Storage: mode, Proxy: px, ProxyMax: proxyMax})
 		if err != nil {
 			t.Fatal(err)
 		}
@@ -136,6 +150,9 @@ func TestC12ScriptedBackend(t *testing.T) {
 		st := storedForm(kind, data, mode)
 		px.Set(kind, hash, fproxy.Obj{Stored: st, Logical: int64(len(data))})
 		f := fproxy.Fault{Kind: rapid.SampledFrom(faultKinds).Draw(t, "fault")}
+		if over {
+			f.Kind = rapid.SampledFrom([]string{"", "", "size-unknown", "size-1"}).Draw(t, "oversizeFault")
+		}
 		rawEntry := kind != cache.CAS || mode != "zstd"
 		if rawEntry && (f.Kind == "bad-header" || f.Kind == "garbage") {
 			f.Kind = "clean-eof" // content faults of equal length are a bit-flip adversary (outside the statement)
@@ -242,6 +259,20 @@ func TestC12ScriptedBackend(t *testing.T) {
 		}
 		s.Client.Timeout = 60 * time.Second
 		ctxs += fmt.Sprintf(" -> hit=%v bytes=%d size=%d err=%v rderr=%v", r.hit, len(r.data), r.size, r.err, r.rderr)
+		if over {
+			E.Label("oversize-object")
+			ctxs += fmt.Sprintf(" max_proxy_blob_size=%d", proxyMax)
+			if r.hit && len(r.data) > 0 {
+				t.Fatalf("object larger than max_proxy_blob_size served from the backend: %s", ctxs)
+			}
+			afterChecks(t, s, px, ctxs)
+			for _, e := range disk.VerifIndexSnapshot(s.Cache) {
+				if e.Key == cache.LookupKey(kind, hash) {
+					t.Fatalf("object larger than max_proxy_blob_size cached locally: %s", ctxs)
+				}
+			}
+			return
+		}
 		if r.hit && r.rderr == nil {
 			if !bytes.Equal(r.data, data) || r.size != int64(len(data)) {
 				t.Fatalf("hit with wrong, short or mis-sized content (%d bytes, reported size %d; backend holds %d): %s", len(r.data), r.size, len(data), ctxs)
